@@ -133,11 +133,15 @@ theorem sf_reg_self (hst : Strong c p) (h : tstep c.sh t (c.loc t) ch = some (s'
   have hreg : Reg c.sh (c.loc t) := (hst.sf t).reg
   cases hpc : (c.loc t).pc <;> simp only [tstep, hpc] at h
   case init =>
-    split at h <;> try cases h
-    split at h <;> cases h
-    intro _ g hg; simp at hg
+    split at h
+    · split at h <;> cases h
+      intro _ g hg; simp at hg
+    · split at h <;> cases h
+      reg_c
+    · cases h
   case idle =>
     split at h
+    · cases h
     · cases h
     · split at h <;> cases h; reg_p hreg hpc
     · split at h <;> cases h; reg_p hreg hpc
@@ -257,7 +261,41 @@ theorem sf_reg_self (hst : Strong c p) (h : tstep c.sh t (c.loc t) ch = some (s'
   case c11 => cases h; reg_c
   case c12 => cases h; reg_c
   case cend => cases h; reg_c
+  case g1 => cases h; reg_c
+  case g2 => split at h <;> cases h; reg_c
+  case g3 => cases h; reg_c
+  case g4 => split at h <;> cases h; reg_c
+  case g5 => cases h; reg_c
+  case g6 => (repeat' split at h) <;> cases h <;> reg_c
+  case g7 => split at h <;> cases h; reg_c
+  case g8 => cases h; reg_c
+  case g9 => cases h; reg_c
+  case g10 => cases h; reg_c
+  case g11 => cases h; reg_c
+  case g12 => cases h; reg_c
+  case g13 => cases h; reg_c
 
 end Self2
+
+/-! ## gcRecord: the validated record stays the indexed one until the unlink -/
+
+def g678 : Pc → Bool
+  | .g6 | .g7 | .g8 => true
+  | _ => false
+
+theorem g678_retTo (l : Loc) : g678 (retTo l).pc = false := by
+  rcases pc_retTo l with h | h | h <;> simp [h, g678]
+theorem g678_nextPlan (l : Loc) : g678 (nextPlan l).pc = false := by
+  rcases pc_nextPlan l with h | h <;> simp [h, g678]
+theorem g678_commitNext (s : Shared) (l : Loc) : g678 (commitNext s l).pc = false := by
+  unfold commitNext; split; rfl; split; rfl; split <;> rfl
+
+theorem sf_gidx_self {c : Cfg} {t : Tid} {ch : Choice} {s' : Shared} {l' : Loc} {e : Option Ev}
+    (hold : g678 (c.loc t).pc = true → (c.loc t).okcur = true → assoc c.sh.index (c.loc t).key = some (c.loc t).m)
+    (h : tstep c.sh t (c.loc t) ch = some (s', l', e)) :
+    g678 l'.pc = true → l'.okcur = true → assoc s'.index l'.key = some l'.m := by
+  cases hpc : (c.loc t).pc <;> simp only [hpc, g678] at hold <;> simp only [tstep, hpc] at h <;>
+    (repeat' split at h) <;> simp at h <;> (try (obtain ⟨rfl, rfl, _⟩ := h)) <;>
+    simp only [g678_retTo, g678_nextPlan, g678_commitNext] <;> simp_all [g678]
 
 end NodisVerif.Proofs.TxProg
